@@ -256,7 +256,12 @@ def auxiliary_data(serdes, state):
     ### for i in range(1, state["next_parse_offset"]-12):
     ###     read_uint_lit(state, 1)
     ## Begin not in spec
-    serdes.bytes("bytes", state["next_parse_offset"] - PARSE_INFO_HEADER_BYTES)
+    # NB: A (non-conformant) next_parse_offset pointing inside the parse info
+    # header implies an empty block (as in the pseudocode loop above), not a
+    # negative length.
+    serdes.bytes(
+        "bytes", max(0, state["next_parse_offset"] - PARSE_INFO_HEADER_BYTES)
+    )
     ## End not in spec
 
 
@@ -267,7 +272,12 @@ def padding(serdes, state):
     ### for i in range(1, state["next_parse_offset"]-12):
     ###     read_uint_lit(state, 1)
     ## Begin not in spec
-    serdes.bytes("bytes", state["next_parse_offset"] - PARSE_INFO_HEADER_BYTES)
+    # NB: A (non-conformant) next_parse_offset pointing inside the parse info
+    # header implies an empty block (as in the pseudocode loop above), not a
+    # negative length.
+    serdes.bytes(
+        "bytes", max(0, state["next_parse_offset"] - PARSE_INFO_HEADER_BYTES)
+    )
     ## End not in spec
 
 
